@@ -575,10 +575,19 @@ def _check(prop, tier, seed, rundir, t_start):
             stage["abnormal_exits"] += 1
             why = "signal %d" % (-s.rc) if s.rc is not None and s.rc < 0 else "exit status %s" % s.rc
             tail = s.err_tail.decode("utf-8", "replace")
+            if s.rc == 101:
+                # a Rust panic that escaped main: every call into the codec runs under panic
+                # capture, so this is a defect of the harness itself, never a verdict on the code
+                inconclusive.append("%s shard %d: the harness itself panicked at %s (exit status 101): %s" % (tag, s.i, s.journal, tail[-300:]))
+                continue
             if s.journal and s.journal[0] != "<done>":
                 stream, idx = s.journal
                 rc2, out2 = run_only(tag, prop, wtier, seed, stream, idx)
-                reproduced = rc2 is not None and rc2 not in (0, 1)
+                if tag == "miri":
+                    # the interpreter reports undefined behaviour with exit status 1
+                    reproduced = rc2 is not None and ("Undefined Behavior" in out2 or "Data race detected" in out2 or rc2 not in (0, 1, 101))
+                else:
+                    reproduced = rc2 is not None and rc2 not in (0, 1, 101)
                 if reproduced:
                     first = first_report_line(tail + "\n" + out2)
                     hard.append({
